@@ -3,7 +3,7 @@
    is_subsequence_of, get_ordered_segments, layout_sections_without_segments,
    calc_segment_alignment, layout_segments_and_their_sections,
    layout_section_table, write_segment_data). *)
-From ElfioV Require Import Bytes Mem Stream SectionData Strings Elfio Table.
+From ElfioV Require Import Bytes Mem Stream SectionData Strings Elfio Table Loader.
 Local Open Scope N_scope.
 
 Definition sub64 (a b : N) : N := wrap64 (a + (2 ^ 64 - wrap64 b)).
@@ -19,12 +19,6 @@ Definition calc_seg_align (secs : list section) (g : segment) : res segment :=
        | Some s => Ok (if p_align g0 <? sh_addralign s then seg_set g0 GAlign (sh_addralign s) else g0)
        end)
     (firstnN (g_sections g) (seg_sections_num g)) (Ok g).
-
-Fixpoint map_res {A B} (f : A -> res B) (l : list A) : res (list B) :=
-  match l with
-  | [] => Ok []
-  | x :: t => y <- f x ;; r <- map_res f t ;; Ok (y :: r)
-  end.
 
 (* std::includes( first1, last1, first2, last2 ) as libstdc++ implements it *)
 Fixpoint includes (fuel : nat) (l1 l2 : list N) : bool :=
